@@ -392,6 +392,34 @@ func runC08(p *Program, r *Result) {
 		r.Check(isFooter, rd.String(), "drainTrailing", r.pos(c), "drainTrailing (the only producer of io.EOF) runs only after a line equal to the footer", "the end-of-armor drain runs on a path where no footer line was seen")
 	}
 
+	// ---- R08.7
+	r.Rule("R08.7", "armoring and de-armoring depend on the stream alone: no package-level state (pools, caches, counters) behind the armor reader, the armor writer and the wrapping encoder", 1)
+	checkNoPackageState(p, r, []*ssa.Function{r.anchor(pkgArmor, "", "NewReader"), r.anchor(pkgArmor, "", "NewWriter"), r.anchor(pkgArmor, "armoredReader", "Read"),
+		r.anchor(pkgArmor, "armoredWriter", "Write"), r.anchor(pkgArmor, "armoredWriter", "Close"),
+		r.anchor(pkgFormat, "", "NewWrappedBase64Encoder"), r.anchor(pkgFormat, "WrappedBase64Encoder", "Write"), r.anchor(pkgFormat, "WrappedBase64Encoder", "Close")}, nil)
+
+	// ---- R08.8
+	r.Rule("R08.8", "every byte armored goes through the one streaming base64 encoder: the wrapping encoder has no second, block-wise encoding path (input still pending inside the streaming encoder would be overtaken)", 1)
+	{
+		n := 0
+		for _, fn := range p.Funcs {
+			if fn.Pkg == nil || fn.Pkg.Pkg.Path() != pkgFormat || fn.Signature.Recv() == nil || structTypeName(fn.Signature.Recv().Type()) != pkgFormat+".WrappedBase64Encoder" {
+				continue
+			}
+			r.Saw(fn.String())
+			for _, c := range callsIn(fn) {
+				switch calleeName(c.Common()) {
+				case "(*encoding/base64.Encoding).Encode", "(*encoding/base64.Encoding).EncodeToString", "(*encoding/base64.Encoding).AppendEncode":
+					n++
+					r.Bad(fn.String(), "second-encoder:"+short(calleeName(c.Common())), r.pos(c), "input is encoded block-wise next to the streaming encoder: one or two input bytes the streaming encoder still holds back would come out after bytes written later, so the armor de-armors to reordered data")
+				}
+			}
+		}
+		if n == 0 {
+			r.OK(pkgFormat+".WrappedBase64Encoder", "second-encoder:none", "", "the methods of the wrapping encoder call no block encoder")
+		}
+	}
+
 	// ---- recipes
 	r.Rule("R08.6", "armor constants and encoder/decoder recipes", 5)
 	checkSites(p, r, recipeSites, "C08")
